@@ -89,8 +89,10 @@ class CS:
         return hash(self.iv)
 
     def __contains__(self, c):
+        import bisect
         c = ord(c) if isinstance(c, str) else c
-        return any(lo <= c <= hi for lo, hi in self.iv)
+        i = bisect.bisect_right(self.iv, (c, MAXC + 1)) - 1
+        return i >= 0 and self.iv[i][0] <= c <= self.iv[i][1]
 
     def count(self):
         return sum(hi - lo + 1 for lo, hi in self.iv)
